@@ -374,7 +374,8 @@ def r_reset(ctx, view, only=None):
                 m = mev[0]
                 for comp in ("heap", "qp", "size"):
                     evs = rs.get(comp, [])
-                    ok = bool(evs) and all(e[1] < m[1] and (f.cfg.dominates(e[0], m[0])) for e in evs[:1])
+                    # executed before the inner drain on every path: in an earlier dominating block, or earlier in its block
+                    ok = bool(evs) and any((e[0] != m[0] and f.cfg.dominates(e[0], m[0])) or (e[0] == m[0] and e[1] < m[1]) for e in evs)
                     ctx.ob("R-RESET", "Store::drain:%s-before-inner-drain" % comp, ok, f.loc(),
                            "reset of `%s` must dominate `map.drain(..)` so that nothing is deferred to the iterator's destructor" % comp)
                 args = view.fx.args_vp(m[3]["ci"])
